@@ -15,6 +15,7 @@ import PicoVerif.Model.AstWriters
 import PicoVerif.Model.Build
 import PicoVerif.Model.Include
 import PicoVerif.Model.Require
+import PicoVerif.Model.ReqWalk
 /-! Line-protocol driver over the executable models (compiled; must not import Mathlib).
 One request per line: `op arg arg ...`; one response line per request.
 Byte strings travel as lower-case hex (`-` = empty). -/
@@ -493,6 +494,29 @@ def handle (st : St) (line : String) : St × String :=
         | none => "bad-op"
       | _ => "bad-op"
     | _, _ => "bad-op"
+  | ["reqcalls", cs] => (parseChunks cs).elim "bad-op" fun l =>
+      match Lex.lex l with
+      | .error e => showErr e
+      | .ok ts => match ReqWalk.requireCalls ts with
+        | .error e => showErr e
+        | .ok calls => "ok " ++ (if calls.isEmpty then "-" else " ".intercalate (calls.map fun c => match c with
+            | .ok (p, b) => s!"{showHex p}:{if b then 1 else 0}"
+            | .error _ => "E"))
+  | ["pkgcode", keep, cs] => (parseChunks cs).elim "bad-op" fun l =>
+      match ReqWalk.packageCode (keep == "1") l with
+      | .error e => showErr e
+      | .ok ts => "ok " ++ showHex (Wr.echo ts)
+  -- buildlua MAIN LUAPATH (PATH CHUNKS)*
+  | "buildlua" :: main :: lp :: ws =>
+    let rec files : List String → Option ReqWalk.Files
+      | [] => some []
+      | p :: c :: rest => match parseHex p, parseChunks c, files rest with
+        | some p, some c, some r => some ((Inc.bytesToPath p, c) :: r)
+        | _, _, _ => none
+      | _ => none
+    match main.toNat?, parseHex lp, files ws with
+    | some m, some lp, some fs => showEx (ReqWalk.buildLua fs m (Inc.bytesToPath lp))
+    | _, _, _ => "bad-op"
   | ["stripdec", np, m] =>
     match (np.splitOn ":").mapM parseHex, (if m == "n" then some none else (parseHex m).map some) with
     | some np, some m => if Req.stripsStat np m then "ok 1" else "ok 0"
